@@ -3,9 +3,12 @@ package main
 // C14 correspondence: the real host x plugin configuration matrix.
 
 import (
+	"bytes"
 	"crypto/tls"
+	"encoding/json"
 	"errors"
 	"fmt"
+	"net"
 	"os"
 	"os/exec"
 	"path/filepath"
@@ -47,7 +50,13 @@ func runIoCase(c *ioCase) (impl, pred string) {
 		kc.TLS, kc.CertPEM, kc.KeyPEM = "static", c14Cert, c14Key
 	}
 	cmd := kitCmd(kc, "TMPDIR="+base)
-	hostSets := kitHostSets(map[int]string{3: c.pproto}, nil, nil)
+	hostProto := c.pproto
+	if c.pproto == "legacy" {
+		// a plugin from before the protocol field: four-field line, net/rpc
+		cmd.Args = []string{cmd.Args[0], "plugin", "legacy"}
+		hostProto = "netrpc"
+	}
+	hostSets := kitHostSets(map[int]string{3: hostProto}, nil, nil)
 	cfg := &plugin.ClientConfig{
 		HandshakeConfig:     kitHandshake(),
 		VersionedPlugins:    hostSets,
@@ -201,9 +210,52 @@ func runIoCase(c *ioCase) (impl, pred string) {
 	return "works", pred
 }
 
-var _ = tls.VersionTLS12
+// pluginLegacy is a plugin built against a go-plugin from before the protocol field existed: it
+// serves net/rpc (the library's own RPCServer) on a unix socket and announces itself with the
+// four-field line CORE|APP|NETWORK|ADDR.  It knows neither AutoMTLS nor multiplexing; a static
+// TLS provider (cfg.TLS) wraps its listener.
+func pluginLegacy(args []string) {
+	var cfg kitServeCfg
+	if err := json.Unmarshal([]byte(os.Getenv("GPV_PLUGIN_CFG")), &cfg); err != nil {
+		fmt.Fprintln(os.Stderr, "gpv plugin legacy: bad GPV_PLUGIN_CFG:", err)
+		os.Exit(2)
+	}
+	if os.Getenv(cfg.CookieKey) != cfg.CookieVal {
+		os.Exit(1)
+	}
+	dir, err := os.MkdirTemp("", "legacy")
+	if err != nil {
+		fmt.Fprintln(os.Stderr, "gpv plugin legacy:", err)
+		os.Exit(2)
+	}
+	defer os.RemoveAll(dir)
+	path := filepath.Join(dir, "s")
+	var lis net.Listener
+	if lis, err = net.Listen("unix", path); err != nil {
+		fmt.Fprintln(os.Stderr, "gpv plugin legacy:", err)
+		os.Exit(2)
+	}
+	if cfg.TLS == "static" {
+		tc, err := staticTLS(cfg.CertPEM, cfg.KeyPEM)
+		if err != nil {
+			os.Exit(2)
+		}
+		lis = tls.NewListener(lis, tc)
+	}
+	doneCh := make(chan struct{})
+	srv := &plugin.RPCServer{
+		Plugins: map[string]plugin.Plugin{"kit": &kitPlugin{tag: 3}},
+		Stdout:  new(bytes.Buffer), Stderr: new(bytes.Buffer), DoneCh: doneCh,
+	}
+	fmt.Fprintf(os.Stdout, "%d|3|unix|%s\n", plugin.CoreProtocolVersion, path)
+	os.Stdout.Sync()
+	go srv.Serve(lis)
+	<-doneCh
+	lis.Close()
+}
 
 func init() {
+	registerPlugin("legacy", pluginLegacy)
 	register("C14", func(o *out, replay string) {
 		c14Cert, c14Key = genStaticCert()
 		if replay != "" {
@@ -227,6 +279,18 @@ func init() {
 									}
 								}
 							}
+						}
+					}
+				}
+			}
+		}
+		// the legacy-line plugin: every host configuration x {no TLS, static TLS provider}
+		for _, a := range []string{"dflt", "grpc", "both"} {
+			for _, s := range []string{"none", "static", "auto"} {
+				for _, m := range []bool{false, true} {
+					for _, l := range []string{"cmd", "runner", "reattach"} {
+						for _, ps := range []string{"none", "static"} {
+							all = append(all, &ioCase{a, s, m, l, "legacy", ps, false, true})
 						}
 					}
 				}
